@@ -8974,11 +8974,11 @@ func (c *BytecodeCompiler) emitAddValue(val value.Value, location *position.Loca
 	id, size := c.bytecode.AddValue(val)
 	switch size {
 	case bytecode.UINT8_SIZE:
-		c.bytecode.AddInstruction(location.StartPos.Line, opCode8, byte(id))
+		c.emit(location.StartPos.Line, opCode8, byte(id))
 	case bytecode.UINT16_SIZE:
 		bytes := make([]byte, 2)
 		binary.BigEndian.PutUint16(bytes, uint16(id))
-		c.bytecode.AddInstruction(location.StartPos.Line, opCode16, bytes...)
+		c.emit(location.StartPos.Line, opCode16, bytes...)
 	default:
 		c.addFailure(
 			fmt.Sprintf("value pool limit reached: %d", math.MaxUint16),
@@ -9021,11 +9021,11 @@ func (c *BytecodeCompiler) emitLoadValue(val value.Value, location *position.Loc
 
 	switch size {
 	case bytecode.UINT8_SIZE:
-		c.bytecode.AddInstruction(location.StartPos.Line, bytecode.LOAD_VALUE8, byte(id))
+		c.emit(location.StartPos.Line, bytecode.LOAD_VALUE8, byte(id))
 	case bytecode.UINT16_SIZE:
 		bytes := make([]byte, 2)
 		binary.BigEndian.PutUint16(bytes, uint16(id))
-		c.bytecode.AddInstruction(location.StartPos.Line, bytecode.LOAD_VALUE16, bytes...)
+		c.emit(location.StartPos.Line, bytecode.LOAD_VALUE16, bytes...)
 	default:
 		c.addFailure(
 			fmt.Sprintf("value pool limit reached: %d", math.MaxUint16),
@@ -9040,14 +9040,14 @@ func (c *BytecodeCompiler) emitLoadValue(val value.Value, location *position.Loc
 // Emit an instruction that instantiates an object
 func (c *BytecodeCompiler) emitInstantiate(args int, location *position.Location) {
 	if args <= math.MaxUint8 {
-		c.bytecode.AddInstruction(location.StartPos.Line, bytecode.INSTANTIATE8, byte(args))
+		c.emit(location.StartPos.Line, bytecode.INSTANTIATE8, byte(args))
 		return
 	}
 
 	if args <= math.MaxUint16 {
 		bytes := make([]byte, 2)
 		binary.BigEndian.PutUint16(bytes, uint16(args))
-		c.bytecode.AddInstruction(location.StartPos.Line, bytecode.INSTANTIATE16, bytes...)
+		c.emit(location.StartPos.Line, bytecode.INSTANTIATE16, bytes...)
 		return
 	}
 
@@ -9119,7 +9119,7 @@ func (c *BytecodeCompiler) emitSetInstanceVariableByName(name value.Symbol, loca
 	case bytecode.UINT8_SIZE, bytecode.UINT16_SIZE:
 		bytes := make([]byte, 2)
 		binary.BigEndian.PutUint16(bytes, uint16(id))
-		c.bytecode.AddInstruction(location.StartPos.Line, bytecode.SET_IVAR_NAME16, bytes...)
+		c.emit(location.StartPos.Line, bytecode.SET_IVAR_NAME16, bytes...)
 	default:
 		c.addFailure(
 			fmt.Sprintf("value pool limit reached: %d", math.MaxUint16),
@@ -9185,7 +9185,7 @@ func (c *BytecodeCompiler) emitGetInstanceVariableByName(name value.Symbol, loca
 	case bytecode.UINT8_SIZE, bytecode.UINT16_SIZE:
 		bytes := make([]byte, 2)
 		binary.BigEndian.PutUint16(bytes, uint16(id))
-		c.bytecode.AddInstruction(location.StartPos.Line, bytecode.GET_IVAR_NAME16, bytes...)
+		c.emit(location.StartPos.Line, bytecode.GET_IVAR_NAME16, bytes...)
 	default:
 		c.addFailure(
 			fmt.Sprintf("value pool limit reached: %d", math.MaxUint16),
